@@ -5,6 +5,7 @@ around `loop`, solver.hpp:496-523), for every scalar type, every `max_nof_iterat
 pass/fail words through the `likelihood_computed` hook on the real loop (`run` correspondence).
 -/
 import MTProofs.Control
+import MT.Generated.Control
 
 namespace MTProps.C05
 open MT MTProofs
@@ -104,6 +105,19 @@ theorem iterations_bounds (hM : 1 ≤ maxIt) (hC : 1 ≤ nConv) :
     refine ⟨by rw [h2]; decide, by omega, by omega, by rw [h3, h1]⟩
 
 end
+
+/-! ### the text of `Solver::loop` (regenerated from solver.hpp on every run) is what the model encodes -/
+
+/-- evaluations happen in the sweeps with `iteration % 10 == 0`, i.e. after the 1st, 11th, 21st, … -/
+theorem eval_period_documented : Gen.evalPeriod = 10 := rfl
+
+/-- CONVERGED is tested before MAX_ITER -/
+theorem termination_order_documented :
+    Gen.terminationOrder = [("coincide==num_conv()", "CONVERGED"), ("iteration==max_iter()", "MAX_ITER")] := rfl
+
+/-- the pass test is the relative change against the documented tolerance -/
+theorem pass_test_documented :
+    Gen.passTest = "std::abs(L2_old-L2)/std::abs(L2_old)<EPS_PRECISION_LIKELIHOOD" := rfl
 
 /-- non-vacuity, on the Boolean automaton: with `n_conv = 2`, outcomes F P P …, `max_it = 25`
 the run converges at evaluation 2, i.e. after sweep 21; with `max_it = 20` it is MAX_ITER -/
